@@ -7,6 +7,7 @@
 package main
 
 import (
+	"encoding/json"
 	"flag"
 	"fmt"
 	"go/ast"
@@ -23,7 +24,23 @@ var repo string
 var fset = token.NewFileSet()
 var problems []string
 
-func problem(format string, a ...any) { problems = append(problems, fmt.Sprintf(format, a...)) }
+// Every fact, translated function and problem is attributed to a group (the extractor that produced it), so that
+// `./check Cxx` can ignore a source shape problem that only concerns definitions Cxx's theorems do not depend on.
+var curGroup = "core"
+
+type groupedProblem struct {
+	Group string `json:"group"`
+	Msg   string `json:"msg"`
+}
+
+var groupedProblems []groupedProblem
+var groupNames = map[string][]string{} // group -> Lean names (Facts.x / Gen.x) it defines
+
+func problem(format string, a ...any) {
+	msg := fmt.Sprintf(format, a...)
+	problems = append(problems, msg)
+	groupedProblems = append(groupedProblems, groupedProblem{curGroup, msg})
+}
 
 func parseFile(rel string) *ast.File {
 	f, err := parser.ParseFile(fset, filepath.Join(repo, rel), nil, parser.SkipObjectResolution)
@@ -115,6 +132,7 @@ func (f *facts) set(name string, v uint64, ok bool, what string) {
 	}
 	f.names = append(f.names, name)
 	f.vals[name] = fmt.Sprintf("0x%x", v)
+	groupNames[curGroup] = append(groupNames[curGroup], "Facts."+name)
 }
 
 func murmurFacts(fc *facts) {
@@ -377,10 +395,14 @@ var fnSpecs = []fnSpec{
 func main() {
 	flag.StringVar(&repo, "repo", "/repo", "repository root")
 	out := flag.String("out", "/verif/lean/RxnModel/Generated", "output directory")
+	flag.String("problems", "", "write problems (json, attributed to groups) to this file")
 	flag.Parse()
 
+	problemsOut := flag.Lookup("problems").Value.String()
 	fc := &facts{vals: map[string]string{}}
+	curGroup = "core:murmur"
 	murmurFacts(fc)
+	curGroup = "core:schema"
 	schemaFacts(fc)
 	extraFacts(fc)
 
@@ -402,6 +424,8 @@ func main() {
 	files := map[string]*ast.File{}
 	for i := range fnSpecs {
 		sp := &fnSpecs[i]
+		curGroup = "fn:" + sp.leanName
+		groupNames[curGroup] = append(groupNames[curGroup], "Gen."+sp.leanName)
 		f, ok := files[sp.file]
 		if !ok {
 			f = parseFile(sp.file)
@@ -424,9 +448,18 @@ func main() {
 	if len(problems) == 0 {
 		writeIfChanged(filepath.Join(*out, "Fns.lean"), sb.String())
 	}
+	if len(problems) == 0 {
+		// which group defines which Lean names (kept from the last good run; used to attribute later problems)
+		b, _ := json.MarshalIndent(groupNames, "", " ")
+		writeIfChanged(filepath.Join(*out, "groups.json"), string(b)+"\n")
+	}
+	if problemsOut != "" {
+		b, _ := json.MarshalIndent(groupedProblems, "", " ")
+		os.WriteFile(problemsOut, b, 0o644)
+	}
 	if len(problems) > 0 {
-		for _, p := range problems {
-			fmt.Fprintln(os.Stderr, "gofacts:", p)
+		for _, p := range groupedProblems {
+			fmt.Fprintf(os.Stderr, "gofacts: [%s] %s\n", p.Group, p.Msg)
 		}
 		os.Exit(3)
 	}
